@@ -711,7 +711,17 @@ pub fn run(ctx: &mut Ctx, focus: Focus) {
         let n_probes = if ctx.thorough { 2000 } else { 200 };
         let mut probe_hist: std::collections::BTreeMap<String, usize> = Default::default();
         for _ in 0..n_probes {
-            let text = if r.chance(1, 2) { policy_probe(&mut r) } else { type_position_probe(&mut r) };
+            // one probe in twenty: policies naming policies through more levels than the analyzer resolves (recorded finding F13-5)
+            let chain = r.chance(1, 20);
+            let text = if chain {
+                let depth = 5 + r.below(3) as usize;
+                let mut s = String::from("party Alice;\n");
+                for k in 0..depth - 1 {
+                    s.push_str(&format!("policy P{} {{\n    hash: P{},\n}}\n", k, k + 1));
+                }
+                s.push_str(&format!("policy P{} = 0xABCDEF;\ntx t() {{\n    output {{\n        to: P0,\n        amount: Ada(1),\n    }}\n}}\n", depth - 1));
+                s
+            } else if r.chance(1, 2) { policy_probe(&mut r) } else { type_position_probe(&mut r) };
             let obs = front(&text);
             let fac = if obs.parse_ok && !obs.analysis_panic { facade(&text) } else { 1 };
             let bad_tx = obs.txs.iter().find(|t| t.kind != 0 && t.kind != 9);
@@ -719,7 +729,7 @@ pub fn run(ctx: &mut Ctx, focus: Focus) {
             *probe_hist.entry(verdict.to_string()).or_default() += 1;
             if obs.analysis_panic || fac == 2 || (obs.accepted && bad_tx.is_some()) {
                 if impl_violations.len() < 20 {
-                    impl_violations.push(serde_json::json!({"index": -1, "ids": [141], "what": "a text program outside the modelled core (policy definitions in constructor form; parameters and environment values typed by records, variants and alias chains) is accepted (or panics) and does not lower",
+                    impl_violations.push(serde_json::json!({"index": -1, "ids": [if chain { 142 } else { 141 }], "what": "a text program outside the modelled core (policy definitions in constructor form; parameters and environment values typed by records, variants and alias chains) is accepted (or panics) and does not lower",
                         "source": text, "lowering": bad_tx.map(|t| t.err.clone()), "facade": fac, "analysis_panic": obs.analysis_panic}));
                 }
             }
